@@ -1,12 +1,12 @@
 package chk
 
 import (
-	"strings"
 	"go/ast"
 	"go/parser"
 	"go/token"
 	"go/types"
 	"regexp"
+	"strings"
 	"sync"
 )
 
